@@ -144,7 +144,7 @@ package tree
 //@   ensures result != nil ==> rhtHas(caller.t) == old(rhtHas(caller.t)) && rhtL(caller.t) == old(rhtL(caller.t)) && rhtR(caller.t) == old(rhtR(caller.t))
 
 //@ func (t *Tree) storeNodes
-//@   props C01 C04 C07 C08 C11
+//@   props C01 C04 C07 C08 C09 C11 C12
 //@   requires t != nil
 //@   requires forall(k, 0, len(nodes), nodes[k].Hash == H(nodes[k].Left, nodes[k].Right))
 //@   requires rhtOK(rhtHas(t), rhtL(t), rhtR(t))
